@@ -203,6 +203,11 @@ def tmp_leftovers(chk, dfs, scratch, quick):
                 "flip.ssd.gz": good[:200] + bytes([good[200] ^ 0x10]) + good[201:], "crc.ssd.gz": good[:-8] + bytes([good[-8] ^ 1]) + good[-7:],
                 "notgz.ssd.gz": raw, "empty.ssd.gz": b""}
     paths = {k: mkdisc.write(os.path.join(scratch, "tl-" + k), v) for k, v in variants.items()}
+    # image arguments that cannot be read at all: a name with no file behind it, and a directory (each with and without .gz)
+    for k in ("missing.ssd.gz", "missing.ssd", "dir.ssd.gz", "dir.ssd"):
+        paths[k] = os.path.join(scratch, "tl-" + k)
+        if k.startswith("dir"):
+            os.makedirs(paths[k], exist_ok=True)
     dest = os.path.join(scratch, "tl-dest")
     os.makedirs(dest, exist_ok=True)
     jobs = []
